@@ -129,6 +129,11 @@ func (a *Act) doCall(res ssa.Value, instr ssa.Instruction, c *ssa.CallCommon, re
 	}
 	// dynamic call through a function value
 	a.safety("nil-func", instr, reach, fmt.Sprintf("(not (= %s nilIface))", recv), "call of nil function value")
+	if info := g.fnResults[recv]; info != nil {
+		// the value is the function a contracted call returned, and that result has a contract of its own
+		a.callByContractSeed(res, instr, nil, info.ct, append([]string{recv}, args...), st, reach, info.orig)
+		return
+	}
 	if ci, ok := g.closures[recv]; ok {
 		a.closureCall(res, instr, ci, args, st, reach)
 		return
@@ -148,9 +153,23 @@ func (a *Act) doCall(res ssa.Value, instr ssa.Instruction, c *ssa.CallCommon, re
 // that named function type ("contract type T"), else a sound havoc.
 func (a *Act) unknownFnCall(res ssa.Value, instr ssa.Instruction, c *ssa.CallCommon, recv string, args []string, st *State, reach string) {
 	eng := a.g.eng
+	// the function value is a parameter of the function being executed, and a contract is declared for it
+	if p, ok := c.Value.(*ssa.Parameter); ok {
+		if fp := eng.contracts["fnparam "+shortFn(a.fn)+"."+p.Name()]; fp != nil {
+			// the parameters of the enclosing function may be named in the contract
+			seed := map[string]tv{}
+			for j, q := range a.fn.Params {
+				if j < len(a.args) && q.Name() != p.Name() {
+					seed[q.Name()] = tv{term: a.args[j], typ: q.Type()}
+				}
+			}
+			a.callByContractSeed(res, instr, nil, fp, append([]string{recv}, args...), st, reach, seed)
+			return
+		}
+	}
 	// the contract of a function type is a model of caller-supplied values used by proofs that execute callee bodies in
 	// place (clause "inlines"); elsewhere a call through an unknown function value stays a sound havoc
-	if fp := eng.fnTypeContract(c.Value.Type()); fp != nil && a.g.inPlace() {
+	if fp := eng.fnTypeContract(c.Value.Type()); fp != nil && (a.g.inPlace() || fp.Trusted) {
 		a.callByContract(res, instr, nil, fp, append([]string{recv}, args...), st, reach)
 		return
 	}
@@ -250,6 +269,13 @@ func (a *Act) dynDispatch(res ssa.Value, instr ssa.Instruction, c *ssa.CallCommo
 				}
 			}
 		}
+	}
+	if true {
+		// neither "it is this closure" nor "it is none of them" is provable: the call has unknown effects (sound; the
+		// case split over all candidates is not generated - a context in which the callee cannot be determined is one in
+		// which the proof has already been lost)
+		a.havocCall(res, instr, st, reach, "function value not resolved to a closure of this proof context", false)
+		return true
 	}
 	type outcome struct {
 		cond string
@@ -503,6 +529,11 @@ func (a *Act) runWithFree(args, freeVars []string, st *State, reach string) {
 // ---- call by contract ----
 
 func (a *Act) callByContract(res ssa.Value, instr ssa.Instruction, fn *ssa.Function, ct *Contract, args []string, st *State, reach string) {
+	a.callByContractSeed(res, instr, fn, ct, args, st, reach, nil)
+}
+
+// callByContractSeed: seed = additional names visible in the contract (the parameters of the call that produced a function value)
+func (a *Act) callByContractSeed(res ssa.Value, instr ssa.Instruction, fn *ssa.Function, ct *Contract, args []string, st *State, reach string, seed map[string]tv) {
 	g := a.g
 	// contract variants specialised on a function-valued argument:  key[funcName]
 	if fn != nil {
@@ -515,6 +546,16 @@ func (a *Act) callByContract(res ssa.Value, instr ssa.Instruction, fn *ssa.Funct
 		}
 	}
 	cs := &callSite{a: a, ct: ct, fn: fn, args: args, pre: st.clone()}
+	if seed != nil {
+		cs.lets = map[string]tv{}
+		for k, v := range seed {
+			cs.lets[k] = v
+		}
+		for _, l := range ct.Lets {
+			e := cs.env(cs.pre, nil)
+			cs.lets[l.Label] = e.value(e.eval(l.Expr))
+		}
+	}
 	name := ct.Key
 	// preconditions
 	for i, cl := range ct.Requires {
@@ -540,7 +581,7 @@ func (a *Act) callByContract(res ssa.Value, instr ssa.Instruction, fn *ssa.Funct
 		for _, m := range cs.modRanges(cs.pre) {
 			a.frameObligeR(instr, reach, m.ref, m.lo, m.hi, "callee "+name+" (modifies)")
 		}
-		if ct.ModifiesAll {
+		if ct.ModifiesAll && !g.modAll {
 			g.oblige("frame", a.srcDetail(instr), reach, "false", a.pos(instr.Pos()), "callee "+name+" may modify anything")
 		}
 	}
@@ -559,9 +600,7 @@ func (a *Act) callByContract(res ssa.Value, instr ssa.Instruction, fn *ssa.Funct
 	var named []string
 	for _, m := range modRefs {
 		named = append(named, g.def(a.nm("mod"), "Int", m))
-		if g.trackEsc {
-			g.assumeIf(reach, fmt.Sprintf("(not (= %s %s))", named[len(named)-1], ghostEscRef))
-		}
+
 	}
 	post := &State{H: map[string]string{}}
 	if ct.ModifiesAll {
@@ -616,6 +655,7 @@ func (a *Act) callByContract(res ssa.Value, instr ssa.Instruction, fn *ssa.Funct
 		}
 	}
 	*st = *post
+	g.ghostCallEffects(ct, cs.pre, st, reach)
 	if g.trackEsc && !ct.NoAlloc {
 		if ct.ModifiesAll {
 			g.assumeIf(reach, fmt.Sprintf("(>= %s %s)", g.escNow(st), g.escNow(cs.pre)))
@@ -646,6 +686,28 @@ func (a *Act) callByContract(res ssa.Value, instr ssa.Instruction, fn *ssa.Funct
 		}
 	}
 	cs.res = rs
+	if fn != nil {
+		sig := fn.Signature
+		for i := 0; i < sig.Results().Len() && i < len(rs); i++ {
+			if _, isFn := sig.Results().At(i).Type().Underlying().(*types.Signature); !isFn {
+				continue
+			}
+			for _, rn := range []string{sig.Results().At(i).Name(), fmt.Sprintf("result%d", i)} {
+				if frc := g.eng.contracts["fnresult "+ct.Key+"."+rn]; frc != nil && rn != "" {
+					info := &fnResultInfo{ct: frc, orig: map[string]tv{}}
+					for j, p := range fn.Params {
+						if j < len(args) {
+							info.orig[p.Name()] = tv{term: args[j], typ: p.Type()}
+						}
+					}
+					if g.fnResults == nil {
+						g.fnResults = map[string]*fnResultInfo{}
+					}
+					g.fnResults[rs[i]] = info
+				}
+			}
+		}
+	}
 	if ct.NoAllocWhen != nil && !ct.ModifiesAll {
 		// conditional noalloc: on those returns the caller's heap is the one before the call (apart from the modifies set)
 		for _, c := range cs.evalClause(ct.NoAllocWhen, st, cs.pre) {
@@ -740,6 +802,17 @@ func (a *Act) invoke(res ssa.Value, instr ssa.Instruction, c *ssa.CallCommon, re
 			a.bind(res, t)
 			return
 		}
+	}
+	// interface methods of other packages that are declared pure: no dispatch into their implementations
+	if eng.isPureExtern(key) && !strings.HasPrefix(key, "dhcpv") {
+		a.havocCall(res, instr, st, reach, "invoke "+key, true)
+		if res != nil && strings.HasPrefix(key, "context.") && isErrorType(res.Type()) {
+			// an error produced by the context package is nil or one of its own values: never one of the library's
+			// (unexported) package-level error variables
+			r := a.env[res]
+			g.assumeIf(reach, fmt.Sprintf("(or (= %s nilIface) (and (is-bOpaque (ibox %s)) (> (ubOpaque (ibox %s)) 1000000)))", r, r, r))
+		}
+		return
 	}
 	// closed world dispatch when the implementations are few and known
 	if impls := eng.implementations(it, c.Method); len(impls) > 0 && len(impls) <= eng.dispatchLimit && a.depth < g.maxDepth {
@@ -1177,6 +1250,10 @@ func (a *Act) closeOp(instr ssa.Instruction, ch string, st *State, reach string)
 
 func (a *Act) selectOp(in *ssa.Select, st *State, reach string) {
 	if a.g.eng.chanHook != nil && a.g.eng.chanHook.sel(a, in, st, reach) {
+		return
+	}
+	if a.g.topCt != nil && a.g.topCt.mentions(clockWordRe) {
+		a.selectModel(in, st, reach)
 		return
 	}
 	g := a.g
